@@ -15,9 +15,18 @@ VARIABLES t, e, drift
 tvars == <<vars, t, e, drift>>
 C == TR[t]
 Ev == C.events[e]
+\* A session with rewound > 0 is not a new reader: the reader had read `rewound` messages, was asked to save on the
+\* way, and was rewound with Resume(cp) = Wire!Rewind. Whether the source handed over the pending save while the
+\* reader discarded is the environment's choice; it is bound from the log (the pop before the first read).
+EarlyPops(c) == {j \in 1..Len(c.events) : c.events[j].e = "pop" /\ c.events[j].idx = c.start /\ c.events[j].off # -1
+                                            /\ c.events[j].srcoff >= c.cpsrc /\ c.events[j].srcoff <= c.cpoff
+                                            /\ \A i \in 1..(j - 1) : c.events[i].e = "want"}
 TInit == /\ t \in 1..Len(TR) /\ e = 1 /\ drift = FALSE
          /\ lens = TR[t].mlens /\ kind = "logged" /\ bounds = {}
-         /\ need = 0 /\ saveSt = "idle" /\ srcWant = FALSE /\ srcCp = -1 /\ got = <<>>
+         /\ need = 0 /\ got = <<>>
+         /\ IF TR[t].rewound > 0 /\ EarlyPops(TR[t]) # {}
+            THEN saveSt = "has" /\ srcWant = FALSE /\ srcCp = TR[t].events[CHOOSE j \in EarlyPops(TR[t]) : TRUE].srcoff
+            ELSE saveSt = "idle" /\ srcWant = (TR[t].rewound > 0) /\ srcCp = -1
          /\ IF TR[t].start = 0 THEN off = 0 /\ nextMsg = 1 /\ cps = <<>>
             ELSE \* a new reader: ReadContext.Resume(cp) = Wire!Resume
                  /\ cps = <<<<TR[t].cpoff, TR[t].cpsrc, TR[t].start + 1>>>>
